@@ -7,7 +7,7 @@ export LC_ALL=C
 if [ ! -f Makefile ] || [ _CoqProject -nt Makefile ]; then
   coq_makefile -f _CoqProject -o Makefile >/dev/null 2>&1
 fi
-timeout 3000 make -j16 "$@" 2>&1 | grep -v '^WARNING' || true
+timeout 1500 make -j16 "$@" 2>&1 | grep -v '^WARNING' || true
 if [ "${PIPESTATUS[0]}" != "0" ]; then exit 1; fi
 # driver
 if [ -f mdmodel_core.ml ]; then
